@@ -33,7 +33,8 @@ def _shape(parts, path_tag="db_path") -> str:
             out += p
         else:
             t = tagof(p)
-            out += "<db_path>" if path_tag in t.lower() else "<NAME>"
+            folded = isinstance(p, Sym) and ((p.origin and p.origin[0] == "upper") or p.distinct)
+            out += "<db_path>" if path_tag in t.lower() else "<NAME>" if folded else "<name as typed by the user>"
     return out
 
 
@@ -87,7 +88,10 @@ def rule_file_naming(ctx):
                       "db_path is configured, and are lost on exit")
 
 
+from .c13 import rule_no_implicit_tx_calls  # noqa: E402  (work that was never committed must be absent afterwards)
+
 RULES = [
+    ("C18.e", rule_no_implicit_tx_calls, ("quick", "thorough")),
     ("C18.a", rule_file_naming, ("quick", "thorough")),
     ("C18.b", rule_bootstrap, ("quick", "thorough")),
     ("C18.c", rule_keys, ("quick", "thorough")),
